@@ -50,6 +50,9 @@ def gen_graph_case(rng, max_n=7):
             tags[str(i)] = rng.sample(tagpool, 2)
         elif r < 0.36 and i + 1 < n:
             tags[str(i)] = "n%d" % (i + 1)  # a tag equal to another node's id: the tag wins
+        elif r < 0.46:
+            # a tag that CONTAINS another tag / a node id as a substring names only its own node
+            tags[str(i)] = rng.choice(["xt0", "t1x", "at2b", "n%dx" % rng.randrange(n), "an%d" % rng.randrange(n)])
     consts = {str(i): rng.random() < 0.3 for i in range(n)}  # node takes an extra constant argument
     case = dict(kind="graph", n=n, edges=[list(e) for e in edges], prios=prios, debug=sorted(debug), setup=sorted(setup),
                 tags=tags, consts=consts, queries=[])
@@ -318,21 +321,26 @@ def other_seed_tables(cases, seed, repo):
                 os.remove(f)
 
 
-def gen_violation(rng, case):
-    """a copy of the case with ONE extra dependency (argument / keyword / flag) that may or may not break a
-    build rule; -> (case, expected_ok) with expected_ok computed from the rules of Build.v by the model"""
+COMBOS = [(h, v) for h in ("node", "param") for v in ("arg", "kw", "flag", "subarg", "subflag") if not (h == "param" and v in ("subarg", "subflag"))]
+
+
+def gen_violation(rng, case, k=None):
+    """a copy of the case with ONE extra dependency (argument / keyword / flag, directly or through a nested DAG)
+    that may or may not break a build rule; the (how, via) combinations are cycled through by k, and the two
+    ends are biased towards the interesting ones (a setup node as dependent, a debug node as dependency)."""
     n = case["n"]
     if n < 2:
         return None
     c = json.loads(json.dumps(case))
     c["queries"] = []
-    how = rng.choice(["node", "node", "node", "param"])
-    dst = rng.randrange(1, n)
-    via = rng.choice(["arg", "kw", "flag", "subarg", "subflag"])
-    if how == "param" and via in ("subarg", "subflag"):
-        how = "node"
+    how, via = COMBOS[k % len(COMBOS)] if k is not None else rng.choice(COMBOS)
+    cand = list(range(1, n))
+    setups = [i for i in cand if i in case["setup"]]
+    dst = rng.choice(setups) if setups and rng.random() < 0.5 else rng.choice(cand)
     if how == "param":
         c["viol"] = dict(how="param", src=None, dst=dst, via=via)
     else:
-        c["viol"] = dict(how="node", src=rng.randrange(dst), dst=dst, via=via)
+        dbg = [i for i in range(dst) if i in case["debug"]]
+        src = rng.choice(dbg) if dbg and rng.random() < 0.5 else rng.randrange(dst)
+        c["viol"] = dict(how="node", src=src, dst=dst, via=via)
     return c
